@@ -342,3 +342,8 @@ package tchannel
 //@ structinv (c *Connection) established newConnection : c.opts.HealthChecks.FailuresToClose != 0
 //@ func (ch *Channel) newConnection(baseCtx context.Context, conn net.Conn, initialID uint32, outboundHP string, remotePeer PeerInfo, remotePeerAddress peerAddressComponents, events connectionEvents) (c *Connection)
 //@   property C19
+// (relay file) "has no pending calls or relayed calls": a relayed call that is
+// given up must give its pending count back, or the sweep never sees the
+// connection as idle again.
+//@ func (r *Relayer) handleCallReq(f *lazyCallReq) (shouldRelease bool, err error)
+//@   property C19
